@@ -17,6 +17,12 @@
 //	trp<k> | ...   like tr, but every definition is parsed k more times in the same process after the
 //	    first parse and the FIRST parsed SRs are used (a table entry aliased by an SR would be
 //	    converted again by the later parses).
+//	trs | <def0> | ... | <defn> | <x1hex> <y1hex> <x2hex> <y2hex> ...
+//	    every definition is parsed ONCE, every hop's transformer is built ONCE, and the whole sequence
+//	    of positions is pushed through the same objects (one line = one history). Result: per position
+//	    the items of tr, positions separated by " ;; ". Every answer is also computed by freshly parsed
+//	    SRs and a fresh transformer; where the reused objects answer differently (bitwise) the item is
+//	    "histdep <x> <y> <freshx> <freshy>".
 //	parse | <def>
 //	    proj.Parse; result "ok A B Rf Es FromGreenwich ToMeter n p1 .. pn" (hex) | "err <text>"
 //
@@ -482,6 +488,20 @@ func corpus(w *bufio.Writer) {
 		put("trp3" + trLine([]string{"+proj=longlat +datum=" + d, wgs, "+proj=longlat +datum=" + d}, 5, 50)[2:])
 		put("trd2" + trLine([]string{"+proj=longlat +datum=" + d, wgs}, 5, 50)[2:])
 	}
+	// one transformer, many calls, two different datums (the WGS84 workaround carries a height per call)
+	{
+		defs := []string{"+proj=longlat +datum=potsdam", "+proj=tmerc +lat_0=0 +lon_0=9 +k=1 +x_0=3500000 +y_0=0 +datum=potsdam +units=m", "+proj=lcc +lat_1=49 +lat_2=44 +lat_0=46.5 +lon_0=3 +x_0=700000 +y_0=6600000 +ellps=GRS80 +towgs84=10,-20,30 +units=m", "+proj=longlat +ellps=bessel +towgs84=570.8,85.7,462.8,4.998,1.587,5.261,3.56"}
+		l := "trs | " + strings.Join(defs, " | ") + " |"
+		for k := 0; k < 12; k++ {
+			l += " " + vproto.F2H(9.5+0.01*float64(k)) + " " + vproto.F2H(50-0.02*float64(k))
+		}
+		put(l)
+		l = "trs | +proj=longlat +datum=osgb36 | +proj=longlat +datum=ire65 |"
+		for k := 0; k < 16; k++ {
+			l += " " + vproto.F2H(-6+0.01*float64(k)) + " " + vproto.F2H(54)
+		}
+		put(l)
+	}
 	// units
 	put(trLine([]string{wgs, "+proj=lcc +lat_1=34.03333333333333 +lat_2=35.46666666666667 +lat_0=33.5 +lon_0=-118 +x_0=2000000.0001016 +y_0=500000.0001016001 +datum=NAD83 +units=us-ft +no_defs", "+proj=aea +lat_1=29.5 +lat_2=45.5 +lat_0=23 +lon_0=-96 +x_0=0 +y_0=0 +datum=NAD83 +units=ft", wgs}, -117.5, 34.2))
 	// datum-less against a geographic system on the same ellipsoid
@@ -652,6 +672,20 @@ func gen(seed uint64, tier string) {
 		// history flavours (one line = one history): extra DeriveConstants calls on the finished SRs,
 		// repeated parses of the same text before the first SRs are used
 		switch i % 8 {
+		case 2, 6:
+			// one transformer per hop, 8-16 nearby positions through the same objects
+			n := r.Range(8, 16)
+			var b strings.Builder
+			b.WriteString("trs | " + strings.Join(defs, " | ") + " |")
+			for k := 0; k < n; k++ {
+				px, py := x, latG
+				if k > 0 {
+					px = wrap180(x + (r.Float()-0.5)*0.3)
+					py = latG + (r.Float()-0.5)*0.3
+				}
+				b.WriteString(" " + vproto.F2H(px) + " " + vproto.F2H(py))
+			}
+			line = b.String()
 		case 1:
 			line = "trd" + strconv.Itoa(1+r.Intn(2)) + line[2:]
 		case 5:
@@ -789,6 +823,115 @@ func implTr(fields []string, extraDerive, extraParse int) string {
 	return strings.Join(out, " ; ")
 }
 
+// implSeq: reused SRs and transformers over a sequence of positions, with a fresh-per-call control.
+func implSeq(fields []string) string {
+	defs := fields[1 : len(fields)-1]
+	xy := strings.Fields(fields[len(fields)-1])
+	if len(xy) < 2 || len(xy)%2 != 0 || len(defs) < 2 {
+		return "badline"
+	}
+	srs := make([]*proj.SR, len(defs))
+	ts := make([]proj.Transformer, len(defs)-1)
+	setupErr := make([]string, len(defs)-1)
+	p := vproto.Safe(func() {
+		for i, d := range defs {
+			sr, err := proj.Parse(d)
+			if err != nil {
+				for j := range setupErr {
+					if j >= i-1 && setupErr[j] == "" {
+						setupErr[j] = "err parse:" + errText(err)
+					}
+				}
+				continue
+			}
+			srs[i] = sr
+		}
+		for i := 0; i+1 < len(defs); i++ {
+			if srs[i] == nil || srs[i+1] == nil {
+				if setupErr[i] == "" {
+					setupErr[i] = "err parse"
+				}
+				continue
+			}
+			t, err := srs[i].NewTransform(srs[i+1])
+			if err != nil {
+				setupErr[i] = "err new:" + errText(err)
+				continue
+			}
+			ts[i] = t // nil = identical systems
+		}
+	})
+	if p != "" {
+		return "panic " + errText(p)
+	}
+	var all []string
+	for k := 0; k+1 < len(xy); k += 2 {
+		x, e1 := vproto.H2F(xy[k])
+		y, e2 := vproto.H2F(xy[k+1])
+		if e1 != nil || e2 != nil {
+			return "badline"
+		}
+		fx, fy := x, y // the fresh-per-call control runs alongside
+		var out []string
+		for i := 0; i+1 < len(defs); i++ {
+			var item string
+			stop := false
+			pp := vproto.Safe(func() {
+				if setupErr[i] != "" {
+					item, stop = setupErr[i], true
+					return
+				}
+				if ts[i] == nil {
+					item = "same " + vproto.F2H(x) + " " + vproto.F2H(y)
+					fx, fy = x, y
+					return
+				}
+				nx, ny, err := ts[i](x, y)
+				// control: fresh SRs, fresh transformer, same input
+				var cx, cy float64
+				var cerr error
+				src, e1 := proj.Parse(defs[i])
+				dst, e2 := proj.Parse(defs[i+1])
+				if e1 == nil && e2 == nil {
+					ft, e3 := src.NewTransform(dst)
+					if e3 == nil && ft != nil {
+						cx, cy, cerr = ft(x, y)
+					} else {
+						cerr = e3
+					}
+				}
+				if err != nil {
+					if cerr == nil {
+						item, stop = "histdep-err "+errText(err), true
+						return
+					}
+					item, stop = "err tr:"+errText(err), true
+					return
+				}
+				if cerr != nil || math.Float64bits(cx) != math.Float64bits(nx) || math.Float64bits(cy) != math.Float64bits(ny) {
+					if !(math.IsNaN(cx) && math.IsNaN(nx)) || !(math.IsNaN(cy) && math.IsNaN(ny)) {
+						item, stop = "histdep "+vproto.F2H(nx)+" "+vproto.F2H(ny)+" "+vproto.F2H(cx)+" "+vproto.F2H(cy), true
+						return
+					}
+				}
+				x, y = nx, ny
+				item = "ok " + vproto.F2H(x) + " " + vproto.F2H(y)
+			})
+			if pp != "" {
+				item, stop = "panic "+errText(pp), true
+			}
+			out = append(out, item)
+			if stop {
+				break
+			}
+		}
+		_ = fx
+		_ = fy
+		all = append(all, strings.Join(out, " ; "))
+	}
+	return strings.Join(all, " ;; ")
+}
+
 func implParse(def string) string {
 	var res string
 	p := vproto.Safe(func() {
@@ -824,6 +967,8 @@ func impl() {
 		switch {
 		case fields[0] == "tr":
 			res = implTr(fields, 0, 0)
+		case fields[0] == "trs":
+			res = implSeq(fields)
 		case strings.HasPrefix(fields[0], "trd") || strings.HasPrefix(fields[0], "trp"):
 			k, err := strconv.Atoi(fields[0][3:])
 			if err != nil || k < 1 || k > 9 {
